@@ -122,6 +122,14 @@ def _run_case(spec):
         keys = ['eweyl_n_down3', 'bweyl_n_down3', 'eweyl_u_down4',
                 'bweyl_u_down4']
         code.update(engine.eval_keys(relB, keys))
+        # the Riemann tensor handed out before must still be the cached one
+        if isinstance(r0, np.ndarray) and 'st_Riemann_down4' in relB.data:
+            res['observations'] += 1
+            with common.Quiet():
+                r1 = np.asarray(relB['st_Riemann_down4'])
+            if not np.array_equal(r0, r1):
+                common.add_violation(res, "st_Riemann_down4 changed after st_Weyl_down4 was requested",
+                                     {"max_diff": float(np.abs(r0 - r1).max())})
         exd['eweyl_n_down3'] = ex['eweyl_n_down3']
         exd['bweyl_n_down3'] = ex['bweyl_n_down3']
         exd['eweyl_u_down4'] = ex['eweyl_n_down4']
